@@ -97,13 +97,22 @@ def run_case(case):
     if case[-1] == "in_list":
         doc = [1, doc]
     data = json.loads(json.dumps(doc))
-    try:
-        r = J.from_json(data)
-        outcome = ("returned", r[1] if case[-1] == "in_list" else r)
-    except J.JSONSerializationError as e:
-        outcome = ("serialization-error", type(e).__name__)
-    except BaseException as e:
-        outcome = ("other-exception", type(e).__name__, str(e)[:100])
+    def attempt():
+        try:
+            r = J.from_json(json.loads(json.dumps(doc)))
+            return ("returned", r[1] if case[-1] == "in_list" else r)
+        except J.JSONSerializationError as e:
+            return ("serialization-error", type(e).__name__)
+        except BaseException as e:
+            return ("other-exception", type(e).__name__, str(e)[:100])
+    outcome = attempt()
+    # the same document again (twice): a tag is judged on its own, not on what was deserialised before
+    for again in (2, 3):
+        o = attempt()
+        if o[:2] != outcome[:2] and not (o[0] == outcome[0] == "returned" and type(o[1]) is type(outcome[1])):
+            res.failures.append(Failure("repeat-differs" if o[0] != "other-exception" else "unrelated-exception",
+                                        f"tag {case[1:-1]!r} ({case[-1]}): attempt {again} gave {o[:3]}, the first attempt {outcome[:3]}"))
+            break
     kind, want = classify_expected(case)
     classes = {"Point1": M.Point, "Box": M.Box, "NoFromJson": M.NoFromJson, "Foreign": M.Foreign, "UUID": uuid.UUID, "Point2": M2.Point}
     res.features = ["expected:" + kind, "outcome:" + outcome[0] + (":" + outcome[1] if outcome[0] != "returned" else "")]
